@@ -31,10 +31,6 @@ Definition C07_reopen_statement : Prop :=
   | _ => n = Empty
   end \/ collision.
 
-(** node codec: compact key encoding and node RLP decode what they encode *)
-Definition C07_compact_roundtrip_statement : Prop :=
-  forall k, (nibs k \/ wfk k) -> compact_to_hex (hex_to_compact k) = k.
-
 (** proofs: completeness and soundness against a list of blobs keyed by their hashes *)
 Definition C07_proof_complete_statement : Prop :=
   forall d n kb blobs, canon n -> is_bytes kb -> n <> Empty ->
